@@ -556,6 +556,11 @@ def r4(ctx):
     _merge_alignment(ctx)
     _swap_guard(ctx)
     _modify_root(ctx)
+    n_ = 0
+    for mname in ("updateCoords", "updatePayloads", "_mergeRanksHelper", "unflattenRanks"):
+        n_ += pat.check_unit_recursion(ctx, "C09.R4", ctx.method("Fiber", mname),
+                                       "depth / levels descent")
+    ctx.floor("C09.R4", n_, 5, "recursion steps of the rank transforms")
     # Fiber.swapRanks
     f = ctx.method("Fiber", "swapRanks")
     fl = so = un = False
